@@ -109,7 +109,7 @@ func verifH13(checkClass bool, id string) {
 		case 2:
 			nd.Assert(w.doSet(0, "a", w.freshVal(), 0) == nil, id+".interfering-write")
 			w.commit(v, "H13")
-			nd.Reach(id+".conflict-end")
+			nd.Reach(id + ".conflict-end")
 		}
 	}
 	if !victimReadsLast {
@@ -125,16 +125,16 @@ func verifH13(checkClass bool, id string) {
 		}
 	}
 	// no effect visible to anyone, at any level ...
-	w.checkReads(id+".after-late-"+lateNames[kind])
+	w.checkReads(id + ".after-late-" + lateNames[kind])
 	// ... nor after background cleanup, nor after a restart
 	if kind != 8 {
 		nd.Assert(lateOp(h, 8, "a") == nil, id+".rollback-after-late")
-		w.checkReads(id+".after-late-"+lateNames[kind]+"-and-rollback")
+		w.checkReads(id + ".after-late-" + lateNames[kind] + "-and-rollback")
 	}
 	verifenv.RunJobs()
 	w.reopen("H13")
-	w.checkReads(id+".after-restart")
-	nd.Reach(id+".end")
+	w.checkReads(id + ".after-restart")
+	nd.Reach(id + ".end")
 }
 
 // VerifH14: the disk holds only live data at quiescence.
